@@ -248,6 +248,9 @@ func (r *replayer) run(pkg string, cases []replayCase) (map[int]replayOut, error
 		f.Close()
 		cmd := exec.Command(bin, "-test.run", "^TestVrfReplay$", "-test.timeout", "120s")
 		cmd.Dir = filepath.Join(repoDir, "pkg", pkg)
+		if _, err := os.Stat(cmd.Dir); err != nil {
+			cmd.Dir = repoDir // package exists only in the overlay
+		}
 		cmd.Env = append(sx.GoEnv(), "VRF_CASES="+f.Name())
 		out, _ := cmd.CombinedOutput()
 		os.Remove(f.Name())
